@@ -17,6 +17,31 @@ type gen struct {
 	inLoop bool
 	funcs  map[string]int // name -> arity
 	depthF int
+	dice   int // 0 = no dice, 1 = one-sided dice only, 2 = any dice (min/max mode)
+}
+
+func (g *gen) diceNode() *Node {
+	n := &Node{K: KDice, I: int64(1 + g.r.Intn(5)), Sides: 1}
+	if g.dice == 2 {
+		n.Sides = []int64{1, 2, 6, 20, 100}[g.r.Intn(5)]
+	}
+	switch g.r.Intn(6) {
+	case 0:
+		n.S, n.Cnt = "kh", int64(1+g.r.Intn(int(n.I)+1))
+	case 1:
+		n.S, n.Cnt = "kl", int64(1+g.r.Intn(int(n.I)+1))
+	case 2:
+		n.S, n.Cnt = "dh", int64(1+g.r.Intn(int(n.I)+1))
+	case 3:
+		n.S, n.Cnt = "dl", int64(1+g.r.Intn(int(n.I)+1))
+	}
+	switch g.r.Intn(6) {
+	case 0:
+		n.Clamp, n.ClampV = "min", int64(g.r.Intn(8))
+	case 1:
+		n.Clamp, n.ClampV = "max", int64(g.r.Intn(8))
+	}
+	return n
 }
 
 var intVars = []string{"vi", "wi", "xi"}
@@ -46,6 +71,9 @@ func (g *gen) smallInt() *Node {
 }
 
 func (g *gen) num(d int) *Node { // int or float expression
+	if g.dice > 0 && g.r.Intn(9) == 0 {
+		return g.diceNode()
+	}
 	if d <= 0 || g.r.Intn(4) == 0 {
 		switch g.r.Intn(6) {
 		case 0:
